@@ -204,10 +204,10 @@ def _concurrent_concrete(first, who, kind):
         return tb.done()      # failed or cancelled, but not hanging
 
 
-@harness(pre=['0 <= closer <= 1 and 0 <= kind <= 1'], family='waiters', kernels=K, timeout=(60, 200),
-         bounds='a disconnect() or drain() awaiting on a channel whose link goes away: the waiter ends (result, error or cancellation)')
+@harness(pre=['0 <= closer <= 1 and 0 <= kind <= 2'], family='waiters', kernels=K, timeout=(60, 200),
+         bounds='a disconnect() or drain() awaiting on a channel whose link goes away - with output still queued, or with everything sent but not yet acknowledged by credits (the data fits the credits exactly): the waiter ends (result, error or cancellation)')
 def waiters_end_on_link_loss(closer: int, kind: int) -> bool:
-    closer, kind = C(closer, 0, 1), C(kind, 0, 1)
+    closer, kind = C(closer, 0, 1), C(kind, 0, 2)
     with untraced():
         return _waiters_concrete(closer, kind)
 
@@ -222,13 +222,37 @@ def _waiters_concrete(closer, kind):
         if kind == 0:
             t = loop.create_task(ch.disconnect())
             loop.run_ready()
-        else:
+        elif kind == 1:
             ch.write(bytes(200))       # more than one credit: output stays queued
             t = loop.create_task(ch.drain())
             loop.run_ready()
+        else:
+            # exactly as many K-frames as credits: nothing stays queued, yet drain() waits for the credits to come back
+            ch.write(bytes(ch.peer_mps * ch.credits - 2))
+            if ch.out_queue or ch.out_sdu is not None:
+                return False
+            t = loop.create_task(ch.drain())
+            loop.run_ready()
+            wd.w.q.clear()             # the frames (and any credits) are lost with the link
         wd.w.link_down(loop, 1)
         loop.run_ready()
         return t.done()
+
+
+@harness(pre=['0 <= n <= 300 and 1 <= k <= 3'], family='identifiers', twin=True, kernels=('bumble.l2cap.ChannelManager.next_identifier',), timeout=(60, 200),
+         bounds='ChannelManager.next_identifier from any stored value 0..300 (symbolic; 255 and beyond included), 1..3 consecutive calls: every identifier is 1..255 (never 0, never 256 - it has to fit one octet) and consecutive ones differ')
+def signalling_identifiers_fit_one_octet(n: int, k: int) -> bool:
+    from vf.props.l2capstub import HConn
+    m = l2cap.ChannelManager()
+    c = HConn(1)
+    m.identifiers[1] = n % 256 if n > 255 else n
+    prev = None
+    for _ in range(k):
+        i = m.next_identifier(c)
+        if not (1 <= i <= 255) or i == prev:
+            return False
+        prev = i
+    return True
 
 
 _flags.int_format_placeholder = True     # log f-strings with symbolic ints are not the subject here (see vf/flags.py)
